@@ -26,6 +26,7 @@ func runC06(c *rules.Ctx) {
 	c.CallArg(K+"lock", "sumtree.Tree.Increase", 1, "{AKEY}(lock.Duration)", "accumulation key is the lock's duration")
 	c.CallArg(K+"lock", "sumtree.Tree.Increase", 2, "elem(tokensToLock).Amount", "accumulation grows by exactly the locked amount")
 	c.NoCall(K+"lock", "sumtree.Tree.Decrease", "locking never decreases an accumulation")
+	c.ForEach(K+"lock", "sumtree.Tree.Increase", "tokensToLock", "every locked coin is added to the accumulation", false)
 
 	// ---- CreateLock / CreateLockNoSend / AddTokensToLockByID: coins sent == coins recorded ------
 	c.CheckedCall(K+"CreateLock", "lockuptypes.BankKeeper.SendCoinsFromAccountToModule", []string{"k.bk", "ctx", "owner", "@lockuptypes.ModuleName", "coins"}, "CreateLock moves exactly `coins` from the owner into the module account", "")
@@ -80,6 +81,14 @@ func runC06(c *rules.Ctx) {
 	c.CallArg(UI, "sumtree.Tree.Decrease", 2, "elem(lock.Coins).Amount", "accumulation shrinks by exactly the unlocked amount")
 	c.NoCall(UI, "sumtree.Tree.Increase", "unlocking never increases an accumulation")
 	c.HasCall(UI, "sumtree.Tree.Decrease", nil, false, "accumulation is decreased", "exists")
+	c.ForEach(UI, "sumtree.Tree.Decrease", "lock.Coins", "every coin of the unlocked lock (returned or burned) leaves the accumulation", false)
+
+	// ---- ForceUnlock -------------------------------------------------------------------------------
+	const FU = K + "ForceUnlock"
+	c.CallArg(FU, "lockupkeeper.Keeper.unlockMaturedLockInternalLogic", 2, "lockupkeeper.Keeper.GetLockByID(k,ctx,lock.ID)#0", "force unlock pays out the stored lock with the given id")
+	c.FreshRead(FU, "lockupkeeper.Keeper.GetLockByID", "lockupkeeper.Keeper.BeginUnlock|lockupkeeper.Keeper.beginUnlock|lockupkeeper.Keeper.BeginForceUnlock|lockupkeeper.Keeper.setLock", "lockupkeeper.Keeper.unlockMaturedLockInternalLogic", 2, "the lock paid out is re-read after begin-unlock changed its end time (index entries are deleted under the stored end time)")
+	c.CallArg(FU, "lockupkeeper.Keeper.BeginUnlock", 2, "lock.ID | lockupkeeper.Keeper.GetLockByID(k,ctx,lock.ID)#0.ID", "the lock moved to unlocking is the one being force-unlocked")
+	c.OnlyWhen(FU, "lockupkeeper.Keeper.BeginUnlock", "not(lockuptypes.PeriodLock.IsUnlocking(lock)) | not(lockuptypes.PeriodLock.IsUnlocking(lockupkeeper.Keeper.GetLockByID(k,ctx,lock.ID)#0))", "begin-unlock runs only for a lock that is not yet unlocking")
 
 	// ---- ExtendLockup ----------------------------------------------------------------------------------
 	const EX = K + "ExtendLockup"
@@ -93,6 +102,8 @@ func runC06(c *rules.Ctx) {
 	c.CallArg(EX, "sumtree.Tree.Increase", 1, "{AKEY}(newDuration)", "new duration bucket grows")
 	c.CallArg(EX, "sumtree.Tree.Increase", 2, "elem({LOCKBYID}.Coins).Amount", "by the same amount")
 	c.CallArg(EX, "sumtree.Tree.Increase", 0, "{ACC}(k,ctx,elem({LOCKBYID}.Coins).Denom)", "in the same denom store")
+	c.ForEach(EX, "sumtree.Tree.Decrease", "{LOCKBYID}.Coins", "every coin of the extended lock leaves the old duration bucket", true)
+	c.ForEach(EX, "sumtree.Tree.Increase", "{LOCKBYID}.Coins", "every coin of the extended lock enters the new duration bucket", true)
 	c.StoreField(EX, "Duration", "newDuration", "the record takes the new duration")
 	c.StoreOrder(EX, "Duration", "lockupkeeper.Keeper.deleteLockRefs", []string{"lockupkeeper.Keeper.addLockRefs", "lockupkeeper.Keeper.setLock"}, "index entries for the old duration are removed before, entries for the new one and the record are written after the change")
 	c.Order(EX, "sumtree.Tree.Decrease", "sumtree.Tree.Increase", "decrease(old) precedes increase(new)")
@@ -102,6 +113,7 @@ func runC06(c *rules.Ctx) {
 	c.StoreField(RM, "Coins", "sdk.Coins.Sub(lock.Coins, coins)", "the record loses exactly the slashed coins")
 	c.CallWhere(RM, "sumtree.Tree.Decrease", 1, "{AKEY}(lock.Duration)", 2, "elem(coins).Amount", "accumulation of the lock's duration shrinks by the slashed amount", "native")
 	c.CallWhere(RM, "sumtree.Tree.Decrease", 1, "{AKEY}(lock.Duration)", 0, "{ACC}(k,ctx,elem(coins).Denom)", "in the slashed coin's denom store", "native-store")
+	c.ForEach(RM, "sumtree.Tree.Decrease", "coins", "every slashed coin leaves the accumulation", false)
 	c.CheckedCall(RM, "lockupkeeper.Keeper.setLock", []string{"k", "ctx", "lock"}, "the reduced record is stored", "")
 
 	// ---- SplitLock -------------------------------------------------------------------------------------------
